@@ -339,7 +339,11 @@ impl EventListenerFuture for RawRead<'_> {
                     Ordering::AcqRel,
                     Ordering::Acquire,
                 ) {
-                    Ok(_) => return Poll::Ready(()),
+                    Ok(_) => {
+                        // Do not keep a stale listener in the "no writer" list.
+                        *this.listener = None;
+                        return Poll::Ready(());
+                    }
                     Err(s) => *this.state = s,
                 }
             } else {
@@ -503,6 +507,8 @@ impl EventListenerFuture for RawWrite<'_> {
                     // Check the state again.
                     if this.lock.state.load(load_ordering) == WRITER_BIT {
                         // We are the only ones holding the lock, return `Ready`.
+                        // Do not keep a stale listener in the "no readers" list.
+                        *this.no_readers = None;
                         this.state.as_mut().set(WriteState::Acquired);
                         return Poll::Ready(());
                     }
@@ -585,7 +591,8 @@ impl<'a> EventListenerFuture for RawUpgrade<'a> {
             };
         }
 
-        // We are done.
+        // We are done. Do not keep a stale listener in the "no readers" list.
+        *this.listener = None;
         Poll::Ready(this.lock.take().unwrap())
     }
 }
